@@ -27,6 +27,8 @@ func x1Scenarios(prop, tier string) []*Scenario {
 		return c11Scenarios(tier)
 	case "C06":
 		return c06Scenarios(tier)
+	case "C01", "C03", "C07", "C16":
+		return raceScenarios(prop, tier)
 	case "C05":
 		return c05Scenarios(tier)
 	case "C15":
@@ -475,6 +477,101 @@ func c06Scenarios(tier string) []*Scenario {
 		mk("bad-head-vs-schedule/conc1", "job 1 runs, job 2 (cannot start) and jobs 3,4 wait; completion races with a new request", one, []XEvent{S, {Kind: "Sbad", P: "p"}, S, S}, 4, []Op{{Kind: "S", Pipeline: "p"}}),
 		mk("delayed/conc1", "three delayed jobs; timers, a cancel and a new request race", PipeCfg{Conc: 1, QL: -1, Graph: graphOne, Delay: dly}, []XEvent{S, S, S}, 3, []Op{{Kind: "C", Job: 1}}, []Op{{Kind: "S", Pipeline: "p"}}),
 	}
+}
+
+// raceScenarios: X1 scenarios started from non-initial states (an X2 history as prefix) in which the
+// asynchronous actors of the runner race: completions, cancels, timers, reloads and new requests.
+// The same family serves C01 (interval monitor), C03 (nothing stranded after the drain), C07 (delay
+// bounds, debounce) and C16 (snapshot at accept time); each check applies its own monitor.
+func raceScenarios(prop, tier string) []*Scenario {
+	S := XEvent{Kind: "S", P: "p"}
+	check := func(w *World, x *Exec) []Violation {
+		final := w.dump()
+		f := buildFacts(w.Log, final)
+		var vs []Violation
+		switch prop {
+		case "C01":
+			vs = append(vs, monC01(f)...)
+			vs = append(vs, monC02(f)...)
+		case "C03":
+			vs = append(vs, monStranded(f, final, "C03")...)
+		case "C07":
+			vs = append(vs, monC07(f, w.S.Elapsed())...)
+			vs = append(vs, monC07Drained(f, final)...)
+		case "C16":
+			vs = append(vs, monC16(w, f)...)
+			vs = append(vs, monStranded(f, final, "C16")...)
+			vs = append(vs, monC02(f)...)
+		}
+		return vs
+	}
+	type sc struct {
+		name, desc string
+		cfgs       []PipeCfg
+		prefix     []XEvent
+		acc        int
+		drivers    [][]Op
+		heavy      bool
+		only       string // "" = all properties
+	}
+	one := PipeCfg{Conc: 1, QL: -1, Graph: graphOne}
+	two := PipeCfg{Conc: 2, QL: -1, Graph: graphOne}
+	chain := PipeCfg{Conc: 1, QL: -1, Graph: graphChain}
+	del := PipeCfg{Conc: 1, QL: -1, Graph: graphOne, Delay: dly}
+	delRep := PipeCfg{Conc: 1, QL: 1, Replace: true, Graph: graphOne, Delay: dly}
+	del2 := PipeCfg{Conc: 2, QL: -1, Graph: graphOne, Delay: dly}
+	chainB := chain
+	chainB.Graph = map[string][]string{"a": nil, "b": {"a"}, "c": {"b"}}
+	list := []sc{
+		{"3-schedules-vs-2-completions/conc2", "two jobs run, one waits; three clients schedule while the running tasks complete", []PipeCfg{two}, []XEvent{S, S, S}, 3,
+			[][]Op{{{Kind: "S", Pipeline: "p"}}, {{Kind: "S", Pipeline: "p"}}}, true, ""},
+		{"dequeue-over-graph-error/conc2", "jobs 1,2 run; job 3 cannot build its graph, jobs 4,5 wait behind it; completions race with a cancel", []PipeCfg{two}, []XEvent{S, S, {Kind: "Sbad", P: "p"}, S, S}, 5,
+			[][]Op{{{Kind: "C", Job: 4}}}, true, ""},
+		{"cancel-vs-completion-of-slot-holder/conc1", "job 1 runs, jobs 2,3 wait; cancel of job 1 races with its completion", []PipeCfg{one}, []XEvent{S, S, S}, 3,
+			[][]Op{{{Kind: "C", Job: 1}}}, false, ""},
+		{"timer-vs-completion/conc1", "job 1 (started after its delay) runs, job 2's timer is pending; expiry races with the completion of job 1 and a cancel of job 2", []PipeCfg{del}, []XEvent{S, {Kind: "Adv", D: dly}, S}, 2,
+			[][]Op{{{Kind: "C", Job: 2}}}, false, ""},
+		{"timer-vs-replace/conc1", "replace strategy: job 1's timer is about to fire while two clients schedule replacements", []PipeCfg{delRep}, []XEvent{S}, 1,
+			[][]Op{{{Kind: "S", Pipeline: "p"}}, {{Kind: "S", Pipeline: "p"}}}, true, ""},
+		{"timers-conc2", "two delayed jobs, concurrency 2; timers, completions and a new request race", []PipeCfg{del2}, []XEvent{S, S}, 2,
+			[][]Op{{{Kind: "S", Pipeline: "p"}}}, true, ""},
+		{"reload-limit-vs-completion", "concurrency 1 -> 2 -> 1 reloads race with completions while jobs wait", []PipeCfg{one, two}, []XEvent{S, S, S}, 3,
+			[][]Op{{{Kind: "R", Def: 1}, {Kind: "R", Def: 0}}}, false, ""},
+		{"reload-tasks-vs-running-job", "the task list is reloaded while job 1 runs a->b and job 2 waits; a third job is accepted afterwards", []PipeCfg{chain, chainB}, []XEvent{S, S}, 2,
+			[][]Op{{{Kind: "R", Def: 1}, {Kind: "S", Pipeline: "p"}}}, false, ""},
+		{"reload-delay-vs-timer", "start_delay 10s -> 0 is reloaded while job 1's timer is pending and job 2 is accepted", []PipeCfg{del, one}, []XEvent{S}, 1,
+			[][]Op{{{Kind: "R", Def: 1}}, {{Kind: "S", Pipeline: "p"}}}, true, ""},
+		{"reload-adds-delay-vs-completion", "start_delay 0 -> 10s is reloaded while job 1 runs and job 2 waits", []PipeCfg{one, del}, []XEvent{S, S}, 2,
+			[][]Op{{{Kind: "R", Def: 1}}}, false, ""},
+	}
+	var res []*Scenario
+	for _, c := range list {
+		c := c
+		sce := &Scenario{
+			Name: c.name, Desc: c.desc,
+			Opts:   func() WorldOpts { return WorldOpts{Defs: defsOf(c.cfgs...)} },
+			Prefix: c.prefix,
+			Setup: func(w *World) {
+				w.Accepted = c.acc
+				for _, d := range c.drivers {
+					w.SpawnDriver(d...)
+				}
+			},
+			Check: check,
+		}
+		hasTimer := false
+		for _, cf := range c.cfgs {
+			if cf.Delay > 0 {
+				hasTimer = true
+			}
+		}
+		sce.NoTick = !hasTimer
+		if c.heavy {
+			sce.Bound = heavyBound(tier)
+		}
+		res = append(res, sce)
+	}
+	return res
 }
 
 // c05Scenarios: concurrent schedule requests against the admission limits
